@@ -305,6 +305,14 @@ func symExecF(fn *ssa.Function, env map[string]int64, fr *symFrame, depth int) s
 					fr.vals[x] = l - r
 				case token.MUL:
 					fr.vals[x] = l * r
+				case token.QUO:
+					if r != 0 {
+						fr.vals[x] = l / r
+					}
+				case token.REM:
+					if r != 0 {
+						fr.vals[x] = l % r
+					}
 				case token.AND:
 					fr.vals[x] = l & r
 				case token.OR:
